@@ -364,8 +364,16 @@ def maintainRec (cfg : Cfg) (now thr : Int) (r : Rec) : Option Rec :=
   else if r.md.deleted > 0 ∧ (!cfg.shadow ∨ r.md.deleted < thr) then none
   else some r
 
-def maintain (cfg : Cfg) (s : Store) (now thr : Int) : Store :=
-  if cfg.backend.maintains then s.filterMap (maintainRec cfg now thr) else s
+/-- One maintenance pass. `skip` is the set of keys the pass does not look at: inside one bbolt transaction
+    that has already rewritten a record, `Cursor.Delete` followed by `Next` steps over a record; which ones
+    is decided by the storage engine, so the model takes the set from the environment. -/
+def maintainSkip (cfg : Cfg) (s : Store) (now thr : Int) (skip : List String) : Store :=
+  if cfg.backend.maintains then
+    s.filterMap (fun r => if skip.contains r.key then some r else maintainRec cfg now thr r)
+  else s
+
+/-- A complete pass (nothing skipped). -/
+def maintain (cfg : Cfg) (s : Store) (now thr : Int) : Store := maintainSkip cfg s now thr []
 
 /-- bbolt `Purge`, one record: permitted ∧ valid ∧ matches ⇒ shadow delete or immediate delete. -/
 def Query.purges (q : Query) (loc int : Bool) (now : Int) (r : Rec) : Bool :=
@@ -620,7 +628,7 @@ inductive Op where
   | putMany (rs : List Rec)
   | query (q : Query)
   | purge (q : Query)
-  | maintain (thr : Int)
+  | maintain (thr : Int) (skip : List String)
   | flush
   | clear
   | evict (k : String)
@@ -641,7 +649,7 @@ def step (cfg : Cfg) (o : Opts) (st : ISt) (op : Op) (now : Int) : ISt × Out :=
   | .putMany rs => ifPutMany cfg o st rs now
   | .query q => ifQuery o st q now
   | .purge q => ifPurge cfg o st q now
-  | .maintain thr => ({ st with store := maintain cfg st.store now thr }, .ok)
+  | .maintain thr skip => ({ st with store := maintainSkip cfg st.store now thr skip }, .ok)
   | .flush => ifFlush cfg o st now
   | .clear => ifClear st
   | .evict k => ((if st.cache.has k then evict cfg st k else st), .ok)
